@@ -90,7 +90,7 @@ def gen_cases(rng, tier):
                 if rng.random() < 0.3:
                     x1, y1 = x0 + d, y0
         cases.append(("grad_px", [kind, f2b(round(x0, 4)), f2b(round(y0, 4)), f2b(round(x1, 4)) if abs(x1 - x0) > 1e-3 or kind != 0 else f2b(x1), f2b(round(y1, 4)),
-                                  f2b(rad), rng.randrange(3), int(rng.random() < 0.5), rng.randrange(2), rng.randrange(3), w, h] + rand_ts(rng) + rand_stops(rng)))
+                                  f2b(rad), rng.randrange(3), int(rng.random() < 0.5), rng.randrange(2), rng.randrange(3) + 3 * rng.choice([0, 0, 0, 1, 2, 3]), w, h] + rand_ts(rng) + rand_stops(rng)))
     return cases
 
 
